@@ -28,6 +28,7 @@ type HarnessSpec struct {
 	MaxPaths     int      `json:"max_paths"`
 	MaxSeconds   int      `json:"max_seconds"`
 	Native       bool     `json:"native"` // witnesses/counterexamples are replayed natively (go test -overlay)
+	NativeViolationsOnly bool `json:"native_violations_only"` // only counterexamples are replayed natively (witness paths use engine-only scheduling points)
 	NativeTest   string   `json:"native_test"`
 	SkipGo       []string `json:"skip_go"`
 	Twins        []string `json:"twins"` // TWIN: check messages that must be violated
@@ -272,6 +273,10 @@ func cmdRun(args []string) int {
 				tags = append(tags, tag)
 			}
 			sort.Strings(tags)
+			if h.NativeViolationsOnly {
+				tags = nil
+				ex.PathWitnesses = nil
+			}
 			for _, tag := range tags {
 				items = append(items, ex.ReachModels[tag])
 			}
